@@ -24,9 +24,9 @@ def main():
         if c["kind"] == "no_std":
             if c["prog"] == "di-dyn-at":
                 continue            # async_trait needs alloc's Box: third-party requirement
-            nostd.add_case(c["case"], sp.source(c["prog"], c["name"], c["shadows"], "c" + c["case"], with_run=False))
+            nostd.add_case(c["case"], sp.source(c["prog"], c["name"], c["shadows"], "c" + c["case"], with_run=False, dname=c.get("dname", "DelegateN")))
         else:
-            crate.add_case(c["case"], sp.source(c["prog"], c["name"], c["shadows"], "c" + c["case"]))
+            crate.add_case(c["case"], sp.source(c["prog"], c["name"], c["shadows"], "c" + c["case"], dname=c.get("dname", "DelegateN")))
 
     def main_fn(live):
         return "\n".join(f"    cases::{crate.cases[cid]}::run();" for cid in live)
@@ -63,7 +63,7 @@ def main():
             compiled, ran = cid not in dropped, cid in results
             diag = [d["message"][:120] for d in dropped.get(cid, [])][:2]
         events.append({"case": cid, "prog": c["prog"], "kind": c["kind"], "compiled": compiled, "ran": ran, "result": results.get(cid, ""),
-                       "avail": avail.get(cid, []), "pred": c["pred"], "cls": "", "diag": diag, "shadows": c["shadows"], "name": c["name"]})
+                       "avail": avail.get(cid, []), "pred": c["pred"], "cls": "", "diag": diag, "shadows": c["shadows"], "name": c["name"], "dname": c.get("dname", "DelegateN")})
     bad, drift = vf.validate(chk, "Trace_C19", events)
     ev = {e["case"]: e for e in events}
     chk.cov["evaluations"] = len(events)
@@ -73,7 +73,7 @@ def main():
                        "entraited trait with a by-value receiver, entraited trait / concrete-dependency fn whose own method is called as_ref, "
                        "static dependency inversion, dyn dependency inversion by ref (sync, and async with async_trait) and by Borrow) x scope variants {clean, each of 18 names shadowed (Impl, core, entrait, Future, Send, "
                        "Sync, AsRef, Borrow, Sized, Box, Option, Result, std, a value named like the trait, a value named EntraitT, blanket traits with methods as_ref / borrow / into_inner), all shadowed, "
-                       "trait named Send / Sync, #![no_std] library, #![no_implicit_prelude] module}; invoked by absolute path with no imports; non-trivial = not the clean variant")
+                       "trait named Send / Sync, delegation trait of the static dependency inversion named AsRef / Send / Sync / Impl / Future, #![no_std] library, #![no_implicit_prelude] module}; invoked by absolute path with no imports; non-trivial = not the clean variant")
     chk.cov["exhaustive"] = True
     vf.report_drift(chk, drift, lambda d: f"prog={ev[d['case']]['prog']} kind={ev[d['case']]['kind']} shadows={ev[d['case']]['shadows']} diag={ev[d['case']]['diag']}")
     chk.cov["samples"] = [{k: e[k] for k in ("prog", "kind", "shadows", "name", "compiled", "result", "avail")} for e in events[::45][:5]]
@@ -86,7 +86,7 @@ def main():
         for cid in sorted({v["case"] for v in viol})[:30]:
             e = ev[cid]
             with open(os.path.join(d, f"case_{cid}.rs"), "w") as f:
-                f.write(sp.source(e["prog"], e["name"], e["shadows"], "c" + cid, with_run=e["kind"] != "no_std"))
+                f.write(sp.source(e["prog"], e["name"], e["shadows"], "c" + cid, with_run=e["kind"] != "no_std", dname=e.get("dname", "DelegateN")))
             with open(os.path.join(d, f"case_{cid}.json"), "w") as f:
                 json.dump({"violations": [x for x in viol if x["case"] == cid], "event": e}, f, indent=1)
         return d
